@@ -155,8 +155,10 @@ func (m *Mon) Update(f MonFlags, sc *Scenario, pre *View, a Action, res *StepRes
 				n.Req[a.Req] = e
 			}
 		}
-		for id := range n.Req {
-			if _, ok := post.Reqs[id]; !ok {
+		for id, e := range n.Req {
+			// forget a request once its record is gone and its expiry block has ended (a record that vanishes
+			// earlier keeps its entry, so the "pending until the expiry block ends" invariant can object)
+			if _, ok := post.Reqs[id]; !ok && post.H > e.IssueH+e.Timeout {
 				delete(n.Req, id)
 			}
 		}
